@@ -298,6 +298,9 @@ M("c01_revert_span_empty_lines", "C01", "ak/llparser.py",
 M("c07_revert_bump_walk_stops_at_contained_builds", "C07", "ak/ghist.py",
   "            if cur_rbuild.iid in included_before:",
   "            if cur_rbuild.iid in self.from_rbuilds:")
+M("c08_revert_derived_receiver_takes_base_operand_as_str", "C08", "ak/color.py",
+  "        elif isinstance(other, CHText):\n            # (copy of the list",
+  "        elif isinstance(other, type(self)):\n            # (copy of the list")
 M("c06_registered_type_ignores_remote_name", "C06", "ak/ghist.py",
   "        return repo_class(repo_id, repo_address, remote_name)",
   "        return repo_class(repo_id, repo_address, 'origin')")
